@@ -28,4 +28,20 @@ def obligations(tier):
                       'last valid chunk is not END; symbolic last tag, with and without FSR data (the first-sample-id scan overwrites chunk_cur like the real one)',
                  bound='one FSR signal; every step succeeds',
                  assumes=['contract stubs for everything jls_rd_open calls (core.c, raw.c, track.c, wr_fsr.c not linked)']))
+    cases = [('annotation', 'JLS_TRACK_TYPE_ANNOTATION', 3, 'CUT', 'CUT'), ('utc', 'JLS_TRACK_TYPE_UTC', 2, 'CUT', 'CUT'), ('annotation', 'JLS_TRACK_TYPE_ANNOTATION', 2, '0', 'CUT')]
+    cases += [('annotation', 'JLS_TRACK_TYPE_ANNOTATION', 0, '0', '0')]      # ND=0: the FIRST data chunk was lost, head offset [0] = CUT dangles
+    if tier != 'quick':
+        cases += [('utc', 'JLS_TRACK_TYPE_UTC', 5, '(CUT+1024)', '(CUT+24)'), ('annotation', 'JLS_TRACK_TYPE_ANNOTATION', 1, 'CUT', '0'), ('utc', 'JLS_TRACK_TYPE_UTC', 1, '0', '(CUT+8)'), ('annotation', 'JLS_TRACK_TYPE_ANNOTATION', 4, '0', '0')]
+    for tname, tdef, nd, lost, dang in cases:
+        nm = 'O3_repair_pointers_%s_n%d_idx%s_next%s' % (tname, nd, 'none' if lost == '0' else 'lost', 'end' if dang == '0' else 'lost')
+        o.append(Obl(nm, 'c19_repair.c', units=['track.c', 'core.c', 'buffer.c'],
+                     defines=['JLS_VERIF_SIGNAL_COUNT=2', 'JLS_VERIF_SOURCE_COUNT=2', 'JLS_VERIF_FSR_BUFFER_U64=2', 'JLS_VERIF_BUF_DEFAULT_SIZE=256', 'JLS_VERIF_BUF_STRING_SIZE=16',
+                              'ST_N=8', 'ST_PMAX=144', 'TRACK=%s' % tdef, 'ND=%d' % nd, 'LOST_INDEX=%s' % lost, 'DANGLING=%s' % dang],
+                     unwind=20, typed_calloc=True, timeout=600, backend=PORTFOLIO, objbits=10, flags=['--max-field-sensitivity-array-size', '2048'],
+                     unwind_text=[('jls_core_rd_chunk', r'while \(1\)', 3), ('jls_buf_realloc', r'while \(alloc_size < size\)', 3), ('harness', r'b < 32', 34)],
+                     desc='real jls_track_repair_pointers on a truncated %s track (%d surviving DATA chunks; level-1 INDEX %s; last item_next %s): '
+                          'afterwards the head offsets in the file equal the in-memory ones, no head offset and no item_next of the surviving chain dangles, the surviving chain is untouched'
+                          % (tname, nd, 'absent' if lost == '0' else 'lost with the cut (offset %s)' % lost, '0' if dang == '0' else 'pointing at a chunk lost with the cut (offset %s)' % dang),
+                     bound='%d DATA chunks, no surviving INDEX/SUMMARY level; dangling offsets concrete per instance, payload bytes symbolic' % nd,
+                     assumes=['raw layer replaced by the chunk-store model rawstore.h (a seek beyond the end succeeds, the read there fails, as in raw.c)']))
     return o
